@@ -120,9 +120,26 @@ def cmpKeys (mode : Mode) (compound : Bool) (v1 : Bytes) (k : Bytes) (c2 : Nat) 
 def stored (compound : Bool) (k : Bytes) (c : Nat) : Bytes :=
   if compound then Vnum.enc c ++ k else k
 
+/-- `step` of `IW_READVNUMBUF64(sblk->lk, c, step)`: the bytes the stored compound part occupies in the
+    cached prefix (0 = unreachable for well-formed stored keys, a vnum always terminates) -/
+def lkStep (lk : Bytes) : Nat := match Vnum.dec lk with | some (_, step) => step | none => 0
+
 /-- `_lx_sblk_cmp_key`: compare the lookup key with a node whose lowest key is `full`
-    (stored form), through the cached prefix `lk = full.take PREFIX_KEY_LEN_V2`. -/
+    (stored form), through the cached prefix `lk = full.take PREFIX_KEY_LEN_V2`.
+    `ksize` counts the compound prefix as it is stored in the cached key (fix 1a3b861; before, the
+    size of the LOOKUP key's compound part was added: `lxCmpOld`). -/
 def lxCmp (mode : Mode) (compound : Bool) (full : Bytes) (k : Bytes) (c2 : Nat) : Int :=
+  let lk := full.take Gen.PREFIX_KEY_LEN_V2
+  let fullLkey := decide (full.length ≤ Gen.PREFIX_KEY_LEN_V2)
+  let ksize := k.length + (if compound then lkStep lk else 0)
+  if fullLkey ∨ ksize < lk.length ∨ mode ≠ .plain then cmpKeys mode compound lk k c2
+  else
+    let r := cmpPrefix mode compound lk k c2
+    if r = 0 then cmpKeys mode compound full k c2 else r
+
+/-- `_lx_sblk_cmp_key` BEFORE fix 1a3b861 (`ksize += IW_VNUMSIZE(key->compound)`); kept to state the
+    defect as a theorem, not used by the driver. -/
+def lxCmpOld (mode : Mode) (compound : Bool) (full : Bytes) (k : Bytes) (c2 : Nat) : Int :=
   let lk := full.take Gen.PREFIX_KEY_LEN_V2
   let fullLkey := decide (full.length ≤ Gen.PREFIX_KEY_LEN_V2)
   let ksize := k.length + (if compound then Vnum.size c2 else 0)
